@@ -175,6 +175,15 @@ def edFromHash (h : Bytes) : Bytes := (RistrettoRef10.ed_from_hash h).getD []
 def h2cAlg (alg : String) : Int32 :=
   if alg = "256" then Model.Scalar.CORE_H2C_SHA256 else Model.Scalar.CORE_H2C_SHA512
 
+/-- `crypto_box_seal_open` (xsalsa20) / `crypto_box_curve25519xchacha20poly1305_seal_open`: nonce = BLAKE2b-192(epk ‖ pk), then box open with the ephemeral key -/
+def sealOpen (xc : Bool) (c pk sk : Bytes) : Option String :=
+  if c.length < 48 then some (decLine 0 ⟨-1, 0, none⟩) else
+  let epk := c.take 32
+  let nonce := Blake2b.hash 24 [] [] [] (epk ++ pk)
+  match beforenm xc epk sk with
+  | none => some (decLine (c.length - 48) ⟨-1, 0, none⟩)
+  | some k => some (decLine (c.length - 48) (Aead.secretboxOpenEasy (if xc then Sodium.Driver.C01.pOrig else Sodium.Driver.C01.pSalsa) true (c.drop 32) nonce k))
+
 def handle (op : String) (args : List String) : Option String :=
   match op, args with
   | "x25519", [n, p] => do some (x25519Line (← ofHex n) (← ofHex p))
@@ -197,14 +206,8 @@ def handle (op : String) (args : List String) : Option String :=
     match beforenm (v == "xchacha") (← ofHex pk) (← ofHex sk) with
     | none => some (decLine (c.length - 16) ⟨-1, 0, none⟩)
     | some k => some (decLine (c.length - 16) (Aead.secretboxOpenEasy (if v == "xchacha" then Sodium.Driver.C01.pOrig else Sodium.Driver.C01.pSalsa) true c n k))
-  | "seal.open", [c, pk, sk] => do
-    let c ← ofHex c; let pk ← ofHex pk; let sk ← ofHex sk
-    if c.length < 48 then some (decLine 0 ⟨-1, 0, none⟩) else
-    let epk := c.take 32
-    let nonce := Blake2b.hash 24 [] [] [] (epk ++ pk)
-    match beforenm false epk sk with
-    | none => some (decLine (c.length - 48) ⟨-1, 0, none⟩)
-    | some k => some (decLine (c.length - 48) (Aead.secretboxOpenEasy Sodium.Driver.C01.pSalsa true (c.drop 32) nonce k))
+  | "seal.open", [c, pk, sk] => do sealOpen false (← ofHex c) (← ofHex pk) (← ofHex sk)
+  | "seal.openx", [c, pk, sk] => do sealOpen true (← ofHex c) (← ofHex pk) (← ofHex sk)
   -- C06: key generation, signing, verification and open run the model of sign.c / open.c / keypair.c
   -- (Model/Sign.lean) instantiated with the Spec primitives; see Driver/C06.lean
   | "sign.seed_keypair", _ | "sign.detached", _ | "sign.verify", _ | "sign.open", _ | "sign.ph", _ =>
